@@ -53,6 +53,7 @@ var (
 	queryCache      sync.Map
 	totalSolverTime float64
 	stMu            sync.Mutex
+	buildMu         sync.Mutex
 )
 
 func (e *Engine) modelTerms() []string {
@@ -73,7 +74,7 @@ func (e *Engine) modelTerms() []string {
 			name, _ := e.arrMapName(u.Elem())
 			if _, ok := e.heapSorts[name]; ok {
 				for i := 0; i < 6; i++ {
-					add(fmt.Sprintf("(select (select %s!0 (sl_ref %s)) %s)", name, in.Term, e.arith("+", fmt.Sprintf("(sl_off %s)", in.Term), e.intLit(int64(i), tInt), tInt)))
+					add(fmt.Sprintf("(select (select %s!0 (sl_ref %s)) %s)", name, in.Term, e.slIdx(in.Term, e.intLit(int64(i), tInt))))
 				}
 			}
 		case *types.Pointer:
@@ -223,6 +224,11 @@ func (e *Engine) SolveUnit(unitName string, uses []string) []*OblResult {
 					continue
 				}
 				j.res = solveQuery(j.query, quickTimeout)
+				if j.obl.Expect != "sat" && j.res.Status != "unsat" && j.res.Status != "sat" {
+					// undecided as a whole: conjuncts of the goal one by one, then with single quantified
+					// hypotheses left out (splitgoal.go); both only ever weaken what is assumed
+					e.solveByParts(j, uses)
+				}
 				if j.obl.Expect != "sat" && j.res.Status != "unsat" {
 					atomic.StoreInt32(&j.obl.failed, 1)
 				}
